@@ -670,12 +670,19 @@ class BaseTaskPool:
         Args:
             return_exceptions (optional): Passed directly into `gather`.
         """
-        with suppress(CancelledError):
-            await gather(
-                *self._meta_tasks_cancelled,
-                *self._pop_ended_meta_tasks(),
-                return_exceptions=return_exceptions,
-            )
+        # Meta tasks that were cancelled before they ever ran are in the cancelled
+        # state. Their `CancelledError` is collected here instead of being
+        # suppressed around the `await`, because the latter would also swallow a
+        # cancellation of the task that is awaiting this method.
+        meta_results = await gather(
+            *self._meta_tasks_cancelled,
+            *self._pop_ended_meta_tasks(),
+            return_exceptions=True,
+        )
+        if not return_exceptions:
+            for result in meta_results:
+                if isinstance(result, Exception):
+                    raise result
         self._meta_tasks_cancelled.clear()
         finished = {**self._tasks_ended, **self._tasks_cancelled}
         await gather(*finished.values(), return_exceptions=return_exceptions)
